@@ -47,7 +47,7 @@ pub fn run_real(imp: Impl, text: &str, expected_tokens: Option<&[Tok]>, input: &
         let exp: Vec<String> = toks.iter().filter_map(|t| t.significant()).collect();
         let act: Vec<String> = tokens
             .iter()
-            .filter(|t| t.get_token_type() != TokenType::Whitespace)
+            .filter(|t| !matches!(t.get_token_type(), TokenType::Whitespace | TokenType::Annotation | TokenType::LineAnnotation))
             .map(|t| if t.get_token_type() == TokenType::Subexpression { "\n\n".to_string() } else { t.get_text().clone() })
             .collect();
         if exp != act {
@@ -79,7 +79,7 @@ pub fn front_end(text: &str, expected_tokens: Option<&[Tok]>) -> Result<garnish_
         let exp: Vec<String> = toks.iter().filter_map(|t| t.significant()).collect();
         let act: Vec<String> = tokens
             .iter()
-            .filter(|t| t.get_token_type() != TokenType::Whitespace)
+            .filter(|t| !matches!(t.get_token_type(), TokenType::Whitespace | TokenType::Annotation | TokenType::LineAnnotation))
             .map(|t| if t.get_token_type() == TokenType::Subexpression { "\n\n".to_string() } else { t.get_text().clone() })
             .collect();
         if exp != act {
@@ -215,7 +215,9 @@ fn minimal_key_b(imp: Impl, ast: &Sx, input: &V, kind: &str, depth: usize, budge
 
 impl C01Check {
     pub fn judge_ast(&self, ast: &Sx, input_ids: &[usize], layouts: &[Layout], ctx: &mut CaseCtx) {
-        let (toks, reference, minimal) = match astgen::printable(ast) {
+        // explicit Group nodes (control-flow skeletons) are kept: parentheses around a conditional change what it belongs to
+        let printed = if ast.contains_def("Group") { astgen::printable_keep_groups(ast) } else { astgen::printable(ast) };
+        let (toks, reference, minimal) = match printed {
             Some(x) => x,
             None => {
                 ctx.class("not-printable");
@@ -286,7 +288,7 @@ impl Check for C01Check {
         format!(
             "Phase exhaustive: every AST with at most k nodes (k=4 quick, 5 thorough) over {} leaves (number, float, text, symbol, unit, $?, $!, $, two identifiers), {} unary constructs (arithmetic/bitwise/logical prefixes, internal accessors, empty apply, {{ }}, ^~) and {} binary constructs \
              (arithmetic, bitwise, comparison, equality, logical, pair, space list, comma list, access, apply, apply-to, conditionals, else, `;`, blank line), in size order, printed with minimal parentheses from the independent operator table (the print is re-read by the reference parser and must give the AST back), spaced layout, x 2 input values (all 7 for ASTs of at most 3 nodes) x 2 data implementations. \
-             Phase random: larger ASTs from a proptest tape (depth <= 6; keyed pairs, lists, conditional chains with defaults, applied nested expressions, counter-bounded reapply loops, side-effect blocks, sequencing), spaced and tight layouts, x 3 of 7 input values x 2 implementations. \
+             Phase control-flow-skeletons: every AST with at most 8 nodes (9 thorough) over the constants `$!` and `1`, `!!`, `?>`, `!>`, `|>`, `&&`, `||`, `+` and explicit parentheses (conditionals inside arms, defaults and operands of each other), x 2 input values x 2 implementations. Phase random: larger ASTs from a proptest tape (depth <= 6; keyed pairs, lists, conditional chains with defaults, applied nested expressions, counter-bounded reapply loops, side-effect blocks, sequencing), spaced and tight layouts, x 3 of 7 input values x 2 implementations. \
              Oracle: read-back of the final current value must be structurally identical to the value a tree-walking reference evaluator assigns to the same text; a well-formed program must not be rejected, fail at run time or exceed 16x the reference's step count. \
              Programs whose meaning the reference leaves undefined (ill-formed shapes, recorded open findings such as else chains without default or list index past the end) are discarded and counted. \
              Non-trivial = judged program with >= 2 operator nodes using >= 2 construct kinds; distinct = distinct ASTs.",
@@ -307,6 +309,7 @@ impl Check for C01Check {
         vec![
             Phase::exhaustive("exhaustive-asts", astgen::count_up_to(k)).with_chunk(2048),
             Phase::random("random-asts", tier.pick(60_000, 1_500_000), 160).with_min_tape(24).with_chunk(512),
+            Phase::exhaustive("control-flow-skeletons", astgen::CONTROL.count_up_to(tier.pick(8, 9))).with_chunk(2048),
         ]
     }
     fn run(&self, tier: Tier, phase: usize, input: &Input, ctx: &mut CaseCtx) {
@@ -332,6 +335,12 @@ impl Check for C01Check {
                 ctx.class("random");
                 self.judge_ast(&ast, &[0, a, b], &[Layout::Spaced, Layout::Tight], ctx);
             }
+            (2, Input::Index(i)) => {
+                if let Some(ast) = astgen::CONTROL.unrank(*i, tier.pick(8, 9)) {
+                    ctx.class("control-flow-skeleton");
+                    self.judge_ast(&ast, &[0, 2], &[Layout::Spaced], ctx);
+                }
+            }
             (_, Input::Text(s)) => {
                 // hand-written regression: text is parsed by the reference parser? not available for raw text: run as smoke only
                 ctx.render(|| format!("{:?}", s));
@@ -353,9 +362,10 @@ impl Check for C01Check {
                 t.choose(7);
                 Some(astgen::random_ast(&mut t, 6))
             }
+            (2, Input::Index(i)) => astgen::CONTROL.unrank(*i, tier.pick(8, 9)),
             _ => None,
         };
-        match ast.and_then(|a| astgen::printable(&a)) {
+        match ast.and_then(|a| if a.contains_def("Group") { astgen::printable_keep_groups(&a) } else { astgen::printable(&a) }) {
             Some((toks, _, _)) => format!("{:?}", render(&toks, Layout::Spaced)),
             None => format!("{:?}", input),
         }
